@@ -248,6 +248,8 @@ def gen_sigs(repo=None):
     out.append(f'Definition get_method_2d : gm_shape := {g2}.')
     out += gen_setups(repo)
     out += gen_method_uses(repo)
+    out += gen_array_params(repo)
+    out += gen_kwargs_loads(repo)
     return '\n'.join(out) + '\n'
 
 
@@ -586,6 +588,179 @@ def gen_method_uses(repo):
         raise TranslateError('no function with a `method` parameter found')
     return ['Definition method_funcs : list (bool * string) := [' + '; '.join(funcs) + '].\n',
             'Definition method_uses : list mcmp := [\n  ' + ';\n  '.join(ents) + '\n].\n']
+
+
+# ---------------------------------------------------------------- routing of per-point array parameters
+PER_POINT = ('weights', 'alpha')
+PASS_THROUGH = {'_sort_array', '_sort_array2d'}      # value-preserving re-ordering (C02)
+METHOD_MODULES = ['classification', 'misc', 'morphological', 'optimizers', 'polynomial', 'smooth', 'spline', 'whittaker']
+
+
+def _wdtype_kw(call):
+    dt = 'WNone'
+    for kw in call.keywords:
+        if kw.arg == 'dtype':
+            v = kw.value
+            if isinstance(v, ast.Name):
+                dt = {'float': 'WFloat', 'bool': 'WBool'}.get(v.id, 'WOtherDt')
+            elif isinstance(v, ast.Constant) and v.value is None:
+                dt = 'WNone'
+            else:
+                dt = 'WOtherDt'
+        if kw.arg is None:
+            dt = 'WOtherDt'       # **kwargs could carry a dtype: unknown
+    return dt
+
+
+def param_routes(fn, pname):
+    """How the parameter `pname` (and plain aliases of it) is consumed in fn."""
+    names = {pname}
+    parents = {}
+    for n in ast.walk(fn):
+        for c in ast.iter_child_nodes(n):
+            parents[c] = n
+    # aliases: <name> = pname   (plain copies only)
+    changed = True
+    while changed:
+        changed = False
+        for n in ast.walk(fn):
+            if isinstance(n, ast.Assign) and isinstance(n.value, ast.Name) and n.value.id in names:
+                for t in n.targets:
+                    if isinstance(t, ast.Name) and t.id not in names:
+                        names.add(t.id)
+                        changed = True
+    # statements that only run when the caller passed None (body of `if p is None`, orelse of `if p is not None`):
+    # every value met there is computed internally, not supplied by the caller
+    none_branch = set()
+    for n in ast.walk(fn):
+        if isinstance(n, ast.If) and isinstance(n.test, ast.Compare) and len(n.test.ops) == 1 \
+                and _is_name(n.test.left, pname) and isinstance(n.test.comparators[0], ast.Constant) \
+                and n.test.comparators[0].value is None:
+            branch = n.body if isinstance(n.test.ops[0], ast.Is) else (n.orelse if isinstance(n.test.ops[0], ast.IsNot) else [])
+            for st in branch:
+                none_branch.update(id(m) for m in ast.walk(st))
+    routes = []
+    for n in ast.walk(fn):
+        if not (isinstance(n, ast.Name) and n.id in names and isinstance(n.ctx, ast.Load)):
+            continue
+        if id(n) in none_branch:
+            continue
+        par = parents.get(n)
+        if isinstance(par, ast.Compare) and all(isinstance(o, (ast.Is, ast.IsNot)) for o in par.ops) \
+                and all(isinstance(c, ast.Constant) and c.value is None for c in par.comparators if c is not n) \
+                and (par.left is n or (isinstance(par.left, ast.Constant) and par.left.value is None)):
+            continue                                   # weights is None / is not None
+        if isinstance(par, ast.Assign) and par.value is n and all(isinstance(t, ast.Name) for t in par.targets):
+            continue                                   # alias definition, followed above
+        call = par if isinstance(par, ast.Call) else (parents.get(par) if isinstance(par, ast.keyword) else None)
+        if isinstance(call, ast.Call):
+            f = call.func
+            if isinstance(f, ast.Attribute) and _is_name(f.value, 'self') and f.attr.startswith('_setup_'):
+                routes.append(f'(RSetup {cstr(f.attr)})')
+                continue
+            if _is_name(f, '_check_optional_array') and len(call.args) >= 2 and call.args[1] is n:
+                routes.append(f'(RDirect {_wdtype_kw(call)})')
+                continue
+            if isinstance(f, ast.Name) and f.id in PASS_THROUGH and call.args and call.args[0] is n:
+                # result must be re-bound to a tracked name, whose uses are classified in turn
+                gp = parents.get(call)
+                if isinstance(gp, ast.Assign) and all(isinstance(t, ast.Name) and t.id in names for t in gp.targets):
+                    continue
+        routes.append('RUnknown')
+    return routes
+
+
+def gen_array_params(repo):
+    ents = []
+    for two_d, pkg in ((False, 'pybaselines'), (True, 'pybaselines/two_d')):
+        for mod in METHOD_MODULES:
+            rel = f'{pkg}/{mod}.py'
+            if not os.path.exists(os.path.join(repo or os.environ.get('VERIF_REPO', '/repo'), rel)):
+                continue
+            tree, _ = _parse(rel, repo)
+            for cls in _classes(tree).values():
+                for name, fn in _methods(cls).items():
+                    if name.startswith('_') or not any(_is_register(d) for d in fn.decorator_list):
+                        continue
+                    a = fn.args
+                    pnames = [x.arg for x in a.args]
+                    defaults = [None] * (len(pnames) - len(a.defaults)) + list(a.defaults)
+                    for pn, d in zip(pnames, defaults):
+                        if pn not in PER_POINT:
+                            continue
+                        if not (isinstance(d, ast.Constant) and d.value is None):
+                            continue          # a scalar parameter that happens to be called alpha
+                        routes = param_routes(fn, pn)
+                        ents.append(f'{{| ap_two_d := {"true" if two_d else "false"}; ap_method := {cstr(name)}; '
+                                    f'ap_param := {cstr(pn)}; ap_routes := [{"; ".join(routes)}] |}}')
+    if not ents:
+        raise TranslateError('no per-point array parameter found')
+    return ['Definition array_params : list aparam := [\n  ' + ';\n  '.join(ents) + '\n].\n']
+
+
+# ---------------------------------------------------------------- arrays inside method_kwargs of the optimizers
+def gen_kwargs_loads(repo):
+    ents = []
+    for two_d, rel in ((False, 'pybaselines/optimizers.py'), (True, 'pybaselines/two_d/optimizers.py')):
+        tree, _ = _parse(rel, repo)
+        for cls in _classes(tree).values():
+            for fname, fn in _methods(cls).items():
+                if fname.startswith('_') or not any(_is_register(d) for d in fn.decorator_list):
+                    continue
+                parents = {}
+                for n in ast.walk(fn):
+                    for c in ast.iter_child_nodes(n):
+                        parents[c] = n
+                # loop variables ranging over string tuples that contain a per-point name
+                loopkeys = set()
+                for n in ast.walk(fn):
+                    if isinstance(n, ast.For) and isinstance(n.target, ast.Name):
+                        ll = _str_lits(n.iter)
+                        if ll and any(k in PER_POINT for k in ll):
+                            loopkeys.add(n.target.id)
+
+                def key_of(sub):
+                    if not (isinstance(sub.value, ast.Name) and sub.value.id in ('method_kws', 'method_kwargs')):
+                        return None
+                    k = sub.slice
+                    if isinstance(k, ast.Constant) and k.value in PER_POINT:
+                        return k.value
+                    if isinstance(k, ast.Name) and k.id in loopkeys:
+                        return '<' + k.id + '>'
+                    if isinstance(k, ast.Constant):
+                        return None                     # another key (tol, ...) or a list position: not an array
+                    if sub.value.id == 'method_kwargs':
+                        return None                     # the raw argument may be a list of dicts indexed by position
+                    return '?'
+                stores = {}
+                for n in ast.walk(fn):
+                    if isinstance(n, ast.Subscript) and isinstance(n.ctx, ast.Store):
+                        k = key_of(n)
+                        if k:
+                            stores.setdefault(k, []).append(n)
+                for n in ast.walk(fn):
+                    if not (isinstance(n, ast.Subscript) and isinstance(n.ctx, ast.Load)):
+                        continue
+                    k = key_of(n)
+                    if k is None:
+                        continue
+                    par = parents.get(n)
+                    use = 'KwUnknown'
+                    if isinstance(par, ast.Call) and _is_name(par.func, '_check_optional_array') and len(par.args) >= 2 \
+                            and par.args[1] is n:
+                        use = f'(KwValidated {_wdtype_kw(par)})'
+                    else:
+                        # an earlier statement of the function stored a computed value under the same key
+                        def stmt_of(x):
+                            while x in parents and not isinstance(x, ast.stmt):
+                                x = parents[x]
+                            return x
+                        mine = stmt_of(n)
+                        if any(stmt_of(st) is not mine and st.lineno < n.lineno for st in stores.get(k, [])):
+                            use = 'KwInternal'
+                    ents.append(f'{{| kl_two_d := {"true" if two_d else "false"}; kl_func := {cstr(fname)}; '
+                                f'kl_key := {cstr(k)}; kl_use := {use} |}}')
+    return ['Definition kwargs_loads : list kwload := [\n  ' + ';\n  '.join(ents) + '\n].\n']
 
 
 GENERATORS = {'GenSigs': gen_sigs}
